@@ -117,7 +117,7 @@ def oracle_uintvar(case):
     # reader on the canonical sequence
     _, res = call(M.read_uintvar, lead + ref + trail, len(lead))
     val, idx = res
-    if not _is_int(val) or val != v:
+    if isinstance(val, bool) or val != v:
         raise Fail("read_uintvar_returns_value", val, v, klass)
     if idx != len(lead) + len(ref):
         raise Fail("read_uintvar_consumes_exactly_the_encoding", idx, len(lead) + len(ref), klass)
@@ -140,7 +140,7 @@ def oracle_sintvar(case):
     klass = sint_class(v)
     _, res = call(M.read_sintvar, lead + ref + trail, len(lead))
     val, idx = res[0], res[1]
-    if not _is_int(val) or val != v:
+    if isinstance(val, bool) or val != v:
         raise Fail("read_sintvar_returns_value", val, v, klass)
     if idx != len(lead) + len(ref):
         raise Fail("read_sintvar_consumes_exactly_the_encoding", idx, len(lead) + len(ref), klass)
@@ -166,7 +166,7 @@ def _float_oracle(case, signed: bool):
     ref = R.sfloat_bytes(i, f, p, neg) if signed else R.ufloat_bytes(i, f, p)
     _, res = call(reader, ref + trail, 0)
     val, idx = res
-    if not isinstance(val, float) and not _is_int(val) or val != x:
+    if val != x:
         raise Fail(f"read_{name}_returns_value", val, x, klass)
     if idx != len(ref):
         raise Fail(f"read_{name}_consumes_exactly_the_encoding", idx, len(ref), klass)
